@@ -5,7 +5,7 @@ export GOFLAGS=-mod=mod GOPROXY=off GOSUMDB=off GOTOOLCHAIN=local
 cd /repo
 case "$1" in fix:*) ;; *) echo "message must start with fix:"; exit 2;; esac
 if git diff --name-only | grep -q '_test.go'; then echo "tests must stay unedited"; exit 2; fi
-out=$(go test -mod=mod -vet=off -count=1 -json ./... 2>&1)
+out=$(go test -mod=mod -vet=off -count=1 -json ./... 2>&1) || true
 pass=$(echo "$out" | grep -c '"Action":"pass","Package":"[^"]*","Test"' || true)
 fail=$(echo "$out" | grep -c '"Action":"fail"' || true)
 echo "tests: pass=$pass fail=$fail"
